@@ -160,10 +160,10 @@ def segmentations(rng, n, bounds):
     if n <= 400:
         out.append(fmt(0, [1] * n))
     else:
-        out.append(fmt(0, from_cuts([rng.randrange(1, n) for _ in range(200)])))
+        out.append(fmt(0, from_cuts([rng.randrange(1, max(2, n)) for _ in range(200)])))
     out.append(fmt(rng.choice([1, 2, 3, 5, 12, 13, 17, 100]) if n <= 3000 else rng.choice([13, 100, 511]), [n]))
     out.append(fmt(0, from_cuts([b + d for b in bounds for d in (-1, 1)])))
-    out.append(fmt(rng.choice([0, 0, 4, 16]), from_cuts([rng.randrange(1, n) for _ in range(rng.randrange(1, 8))])))
+    out.append(fmt(rng.choice([0, 0, 4, 16]), from_cuts([rng.randrange(1, max(2, n)) for _ in range(rng.randrange(1, 8))])))
     out.append(fmt(0, from_cuts(bounds)))
     return out
 
